@@ -292,3 +292,157 @@ def oracle_C04(results, metas, st):
             if not state_equal:
                 break
     return out
+
+# ---- C18: real system calls of the writing callback, kill enumeration ------------------------------
+def build_preload():
+    import tie, hashlib
+    src = os.path.join(tie.VERIF, 'harness', 'preload', 'crash.c')
+    key = hashlib.sha256(open(src, 'rb').read()).hexdigest()[:12]
+    out = os.path.join(tie.BUILD, 'crash-%s.so' % key)
+    if not os.path.exists(out):
+        rc, log = tie.sh('gcc -O1 -shared -fPIC -o %s %s -ldl' % (out, src))
+        if rc != 0:
+            raise RuntimeError('interposer build failed: ' + log[-500:])
+    return out
+
+def parse_fslog(path):
+    ops = []
+    if not os.path.exists(path):
+        return ops
+    for line in open(path, 'rb').read().split(b'\n'):
+        p = line.split(b' ')
+        if p[0] == b'open' and len(p) == 3: ops.append(('open', p[1].decode(), p[2].decode()))
+        elif p[0] == b'write' and len(p) == 4: ops.append(('write', p[1].decode(), bytes.fromhex(p[3].decode())))
+        elif p[0] == b'close' and len(p) == 2: ops.append(('close', p[1].decode()))
+        elif p[0] == b'rename' and len(p) == 3: ops.append(('rename', p[1].decode(), p[2].decode()))
+        elif p[0] == b'unlink' and len(p) == 2: ops.append(('unlink', p[1].decode()))
+    return ops
+
+def c18_spec(rng, fmt, kind, size):
+    """a run whose checkpoint text is small / medium / far above the 8 KiB stream buffer"""
+    import props
+    nb = {'small': 1, 'medium': 12, 'large': 45}[size]
+    dists = [] if size == 'small' and rng.random() < 0.5 else \
+        [[nb, nb if size != 'small' else 1, fmt.tok(Fraction(0)), fmt.tok(Fraction(1)), fmt.tok(Fraction(0)), fmt.tok(Fraction(1)), rng.choice([b'', b'x y', b' lead'])]
+         for _ in range(1 if size != 'large' else 2)]
+    iters = rng.choice([2, 3])
+    s, cl, info = props.rand_run(rng, fmt, kind, iters=iters, calls=[3, 7], dists=dists, poly=True, cb=['builtin', rng.choice([1, 3]), fmt.rtok(0)],
+                                 finite_only=True, wants=0)
+    return s, info
+
+def run_one(exe, line, env=None, timeout=120):
+    p = subprocess.run([exe], input=line + '\n', stdout=subprocess.PIPE, stderr=subprocess.PIPE, universal_newlines=True, timeout=timeout, env=env)
+    outs = [l for l in p.stdout.split('\n') if l.startswith('(')]
+    return p.returncode, (parse(outs[0]) if outs else None)
+
+def extra_C18(rng, tier, st, cov):
+    import tie, shutil, tempfile
+    out = []
+    exe = st['cxx_exe']; ml = st.get('model_exe')
+    so = build_preload()
+    work = tempfile.mkdtemp(prefix='c18_', dir=tie.BUILD)
+    stats = {'configs': 0, 'kills': 0, 'partial_write_kills': 0, 'resumes': 0, 'ops_per_run': [], 'text_bytes': [], 'skeleton_checks': 0}
+    try:
+        configs = [(t, k, sz) for t in ('d', 'f', 'l') for k in ('plain', 'vegas', 'mc') for sz in ('small', 'medium', 'large')]
+        rng.shuffle(configs)
+        configs = configs[:6 if tier == 'quick' else 27]
+        if not any(c[2] == 'large' for c in configs): configs[0] = (configs[0][0], configs[0][1], 'large')
+        for n, (t, kind, size) in enumerate(configs):
+            fmt = FMTS[t]
+            spec, info = c18_spec(rng, fmt, kind, size)
+            calls = info['calls']
+            final = os.path.join(work, 'chk_%d.txt' % n)
+            def case(ops, keep=True, idx=0):
+                s = [e for e in spec if e[0] not in ('ops', 'idx')] + ([['idx', idx]] if idx else []) + ([['keepfile', final.encode()]] if keep else []) + [['ops', ops]]
+                return dump([1, t, 'run', s, []])
+            base_env = dict(os.environ); base_env['VERIF_TMP'] = work
+            def penv(logf, kill=None, partial=None):
+                e = dict(base_env); e.update({'LD_PRELOAD': so, 'VERIF_FS_MATCH': final, 'VERIF_FS_LOG': logf})
+                if kill: e['VERIF_FS_KILL_AT'] = str(kill)
+                if partial: e['VERIF_FS_PARTIAL'] = str(partial)
+                return e
+            def clean():
+                for f in (final, final + '.tmp'):
+                    if os.path.exists(f): os.remove(f)
+            # reference run: operations and texts
+            clean(); logf = os.path.join(work, 'log_%d' % n)
+            if os.path.exists(logf): os.remove(logf)
+            rc, ref = run_one(exe, case([['run', calls], ['text']]), penv(logf))
+            ops = parse_fslog(logf)
+            if rc != 0 or ref is None:
+                out.append(viol('C18 reference run failed (rc %s)' % rc, [])); continue
+            ref_final_text = [x for x in ref[1] if isinstance(x, list) and x[0] == 'text'][0][1]
+            stats['configs'] += 1; stats['ops_per_run'].append(len(ops))
+            # texts per invocation: payload between an open and the next close of the same path
+            texts = []; cur = None; skeleton = []
+            for o in ops:
+                if o[0] == 'open': cur = b''; skeleton.append(['open', o[1].encode()])
+                elif o[0] == 'write' and cur is not None: cur += o[2]; skeleton.append(['write', o[1].encode(), len(o[2])])
+                elif o[0] == 'close' and cur is not None: texts.append(cur); cur = None; skeleton.append(['close', o[1].encode()])
+                elif o[0] == 'rename': skeleton.append(['rename', o[1].encode(), o[2].encode()])
+                else: skeleton.append([o[0], o[1].encode()])
+            stats['text_bytes'] += [len(x) for x in texts]
+            if not texts or texts[-1] != ref_final_text:
+                out.append(viol('the bytes written by the last callback invocation are not the serialised final checkpoint (%s, %s)' % (kind, size), [],
+                                {'spec': case([['run', calls], ['text']])})); continue
+            # the real operation sequence against the model's write_chkpt_ops, invocation by invocation
+            if ml:
+                per = []; curops = []
+                for o in skeleton:
+                    curops.append(o)
+                    if o[0] == 'rename': per.append(curops); curops = []
+                if curops: per.append(curops)
+                for inv in per:
+                    lens = [o[2] for o in inv if o[0] == 'write']
+                    rcm, mo = run_one(ml, dump([1, 'd', 'fsops', [final.encode(), lens], []]))
+                    stats['skeleton_checks'] += 1
+                    if mo is None or mo[1] != inv:
+                        out.append(viol('system calls of one callback invocation differ from the model (create/truncate <name>.tmp, write, close, rename): %s' %
+                                        [(o[0], o[1][-12:]) for o in inv][:8], [], {'spec': case([['run', calls], ['text']]), 'real': dump(inv)[:600], 'model': dump(mo[1])[:600] if mo else None}))
+                        break
+            # kill enumeration
+            nops = len(ops)
+            ks = list(range(1, nops + 1))
+            if tier == 'quick' and nops > 14:
+                ks = sorted(set(rng.sample(ks, 10) + [1, 2, nops - 1, nops]))
+            plan = [(k, None) for k in ks]
+            writes = [i + 1 for i, o in enumerate(ops) if o[0] == 'write' and len(o[2]) > 2]
+            for k in (writes if tier == 'thorough' else rng.sample(writes, min(4, len(writes)))):
+                L = len(ops[k - 1][2])
+                for m in sorted(set([1, L // 2, L - 1])):
+                    plan.append((k, m))
+            for k, m in plan:
+                clean(); lk = os.path.join(work, 'klog')
+                if os.path.exists(lk): os.remove(lk)
+                rc, _ = run_one(exe, case([['run', calls], ['text']]), penv(lk, k, m))
+                stats['kills'] += 1
+                if m: stats['partial_write_kills'] += 1
+                done = parse_fslog(lk)
+                opens = sum(1 for o in done if o[0] == 'open')
+                renames = sum(1 for o in done if o[0] == 'rename')
+                content = open(final, 'rb').read() if os.path.exists(final) else None
+                allowed = set()
+                j = opens                        # invocation in progress (1-based); texts[j-1] is its text
+                allowed.add(texts[j - 2] if j >= 2 else None)
+                if 1 <= j <= len(texts): allowed.add(texts[j - 1])
+                if j == 0: allowed = {None}
+                where = 'operation %d of %d (%s)%s' % (k, nops, ops[k - 1][0], ' after %d of %d bytes' % (m, len(ops[k - 1][2])) if m else '')
+                replay = {'spec': case([['run', calls], ['text']]), 'kill_at': k, 'partial': m, 'file': final}
+                if rc != -9:
+                    out.append(viol('process was not killed at %s (exit %s)' % (where, rc), [], replay)); continue
+                if content not in allowed:
+                    desc = 'absent' if content is None else 'empty' if content == b'' else '%d bytes, a strict prefix of a checkpoint' % len(content) if any(x and x.startswith(content) for x in texts) else '%d bytes' % len(content)
+                    out.append(viol('killed at %s: the checkpoint file is %s - neither the previous nor the new complete checkpoint' % (where, desc), [], replay))
+                    continue
+                # resume from what is there
+                if content is not None:
+                    nres = texts.index(content) + 1
+                    rc2, res = run_one(exe, case([['load', final.encode()], ['run', calls[nres:]], ['text']], keep=False, idx=sum(calls[:nres])), base_env)
+                    stats['resumes'] += 1
+                    t2 = [x for x in (res[1] if res else []) if isinstance(x, list) and x[0] == 'text']
+                    if rc2 != 0 or not t2 or t2[0][1] != ref_final_text:
+                        out.append(viol('killed at %s: resuming from the file does not reproduce the final checkpoint of the uninterrupted run' % where, [], replay))
+    finally:
+        shutil.rmtree(work, ignore_errors=True)
+    cov.setdefault('extra', {})['c18'] = {k: (v if not isinstance(v, list) else {'min': min(v) if v else 0, 'max': max(v) if v else 0, 'n': len(v)}) for k, v in stats.items()}
+    return out
